@@ -67,6 +67,15 @@ def translate(ctx):
     if changed:
         ctx.log("Gen/StatanGen.lean regenerated: rescale block =", "; ".join(s for s, _, _ in frags["rescale"]),
                 "| selector =", frags["chiSel"][0])
+    # round 7: Normal / Student / Chi_square / NormalDistribution whole, every coefficient and threshold (Gen/StatanFns.lean)
+    from gen import c17_constants as gc
+    try:
+        if gc.run(ctx.repo, ctx.lean):
+            ctx.log("Gen/StatanFns.lean regenerated")
+    except gc.Unparsable as e:
+        raise TieBroken("c17_constants", str(e))
+    except (OSError, ValueError) as e:
+        raise TieBroken("c17_constants", repr(e))
 
 
 def reference(ctx, queries):
